@@ -24,7 +24,7 @@ def text_of(l):
     if k == "sw":
         return {"s": "\\s %s", "scope": "\\scope %s", "s;": "\\s %s;"}[l["form"]] % l["arg"]
     return {"setA": 'set req.http.A = "%s";' % l["v"], "getA": "req.http.A;", "declX": "declare local var.x STRING;",
-            "setX": 'set var.x = "%s";' % l["v"], "getX": "var.x;", "bad": "set req.http.A = ;", "help": "\\h", "empty": ""}[k]
+            "setX": 'set var.x = "%s";' % l["v"], "getX": "var.x;", "bad": "set req.http.A = ;", "badX": "set var.x = 10;", "help": "\\h", "empty": ""}[k]
 
 
 class Session:
@@ -169,7 +169,19 @@ def run(ctx):
     sim = ctx.tlc("Console", cfg="ConsoleSim.cfg", simulate=n, depth=30, timeout=900, tag="sim")
     behs = [json.loads(l) for l in open(sim.beh_path)]
     ctx.rng.shuffle(behs)
-    behs = behs[:n]
+    # sessions in which a failing line is followed by a read of what it must not have changed come first
+    def rare(b):
+        ks = [st["line"]["k"] for st in b["steps"]]
+        for i, k in enumerate(ks):
+            if k == "badX" and "declX" in ks[:i] and "setX" not in ks[:i]:
+                rest = ks[i + 1:]
+                if "getX" in rest and "setX" not in rest[:rest.index("getX")]:
+                    return True
+            if k == "bad" and "getA" in ks[i + 1:i + 3]:
+                return True
+        return False
+    first = [b for b in behs if rare(b)][:n // 3]
+    behs = first + [b for b in behs if b not in first][:n - len(first)]
     if len(behs) < n // 2:
         raise MachineryFault("simulation produced %d sessions" % len(behs))
     falco = ctx.build_falco()
